@@ -14,6 +14,7 @@ structure DState where
   tables : Verbs.Tables := []
   codes : Verbs.CodeTable := []
   rank : List Nat := []
+  reeds : Verbs.ReedTable := []
 
 def natVerb (verb : String) (args : List String) : Option String :=
   match args.mapM String.toNat? with
@@ -40,9 +41,13 @@ def dispatch (st : DState) (line : String) : DState × String :=
     match Verbs.defCode (verb :: args) with
     | some (n, c) => ({ st with codes := (n, c) :: st.codes.filter (·.1 ≠ n) }, "ok")
     | none =>
+    match Verbs.defReed (verb :: args) with
+    | some (n, r) => ({ st with reeds := (n, r) :: st.reeds.filter (·.1 ≠ n) }, "ok")
+    | none =>
       let toks := verb :: args
       let r := firstSome [
         fun _ => Verbs.cfec st.codes toks,
+        fun _ => Verbs.creed st.codes st.reeds toks,
         fun _ => Verbs.cbin toks,
         fun _ => Verbs.canalog toks,
         fun _ => Verbs.cconstraint toks,
